@@ -161,7 +161,7 @@ func (fc *FnCtx) hasQuantOrSpec() bool { return len(fc.specsUsed) > 0 }
 // discharge one obligation with the solver portfolio.
 func (e *Engine) discharge(ob *Obligation, idx int) {
 	fc := ob.fc
-	if ob.Status == "failed" && ob.Kind == "frame" {
+	if ob.Status == "failed" && (ob.Kind == "frame" || ob.Kind == "anchor") {
 		return
 	}
 	if ob.Kind == "layout" {
